@@ -40,6 +40,8 @@ type Scenario struct {
 	// ssim only
 	SClients []SClient `json:"sclients,omitempty"`
 	Phase2   []SClient `json:"phase2,omitempty"` // clients started after phase 1 ended (or was killed) on a reopened backend
+	FsTimeoutNs int64 `json:"fs_timeout_ns,omitempty"` // store-level: operation timeout of the file-system backend (0 = default, 5 min)
+	Disjoint bool `json:"disjoint,omitempty"` // store-level: client i is the only one that touches key i
 	Keys     []string  `json:"keys,omitempty"` // key table (base64 in JSON would be nicer; Go strings may hold any bytes, JSON-escaped)
 }
 
@@ -143,6 +145,7 @@ type SOp struct {
 	Mode   string `json:"mode,omitempty"`
 	Key    int    `json:"key"`  // index into Scenario.Keys
 	ValLen int    `json:"val_len,omitempty"`
+	Twin   int    `json:"twin,omitempty"` // set: >0 = the value is shared by every Set with the same Twin, ValLen and Class
 	Class  int    `json:"class,omitempty"`
 	Prefix int    `json:"prefix,omitempty"` // keys: prefix length taken from Keys[Key]
 }
